@@ -58,7 +58,7 @@ def install():
     for k in [k for k in sys.modules if k == 's3transfer' or k.startswith('s3transfer.')]:
         del sys.modules[k]
     from . import fs as _fs
-    swap = {'os': _fs.sim_os,
+    swap = {'os': _fs.sim_os, 'shutil': _fs.sim_shutil,
             'threading': simstd.simthreading, 'queue': simstd.simqueue,
             'concurrent': simstd.sim_concurrent, 'concurrent.futures': simstd.sim_cf,
             'time': simstd.sim_time}
